@@ -273,7 +273,7 @@ impl SignatureContext<'_> {
             // every signed header must be in the request
             for name in &presigned_url.signed_headers {
                 if headers.get_all(name).next().is_none() {
-                    return Err(invalid_request!("signed header is not in the request: {}", name));
+                    return Err(invalid_request!("signed header is not in the request: {:?}", name));
                 }
             }
 
@@ -370,7 +370,7 @@ impl SignatureContext<'_> {
             // every signed header must be in the request
             for name in &authorization.signed_headers {
                 if headers.get_all(name).next().is_none() {
-                    return Err(invalid_request!("signed header is not in the request: {}", name));
+                    return Err(invalid_request!("signed header is not in the request: {:?}", name));
                 }
             }
 
